@@ -161,16 +161,41 @@ def run(tier, seed, jobs):
                   "label": "INBOX(4): flag changes around an EXPUNGE that renumbers, the other session quiet until it synchronises"})
     plans.append({"cfg_ref": ("vf.props.c04", "cfg", ["oddkw"]), "alphabet": alphabet_keywords(tier), "depth": 2 if tier == "quick" else 4,
                   "label": "init=oddkw: keywords that are pieces of system flag names through APPEND / COPY / MOVE / STORE"})
-    return run_h(PROP, RULES, plans, ("C04",), jobs, seed,
+    res = run_h(PROP, RULES, plans, ("C04",), jobs, seed,
                  ["two read-write sessions on INBOX(2) (B may switch to EXAMINE); flag lists as in the alphabet "
                   "(system flags, $Fwd, keywords equal to MH sequence names in the thorough tier)",
                   "\\Recent and the derived `unseen` marker are not compared with a model value, except: `unseen` present iff \\Seen absent; "
                   "\\Recent never comes back for a message within one session's stream or in .mh_sequences, and no STORE changes the folder's Recent sequence",
                   "a session's flag knowledge is the last FLAGS value it was sent per message; checked when each command ends and at sync points"],
                  time_budget=150 if tier == "quick" else 1500)
+    # schedule part: flag changes of one session while the other enters / leaves IDLE or reads slowly -- after its next
+    # synchronisation point a session's last FLAGS value per message is the current one (scenarios shared with C10)
+    from ..explore import sched
+    from . import c10
+
+    by = {sc["name"]: sc for sc in c10.scenarios(tier)}
+    per = []
+    for name in ("store,store|idle parked in its flush,done", "store,store|idle,done slow reader", "store|store", "store|fetchbody"):
+        sc = by[name]
+        r = sched.explore(sc, 2, jobs, seed, max_exec=20000 if tier == "quick" else 80000)
+        res.failures.extend(f for f in r["failures"] if f.rule.startswith("C04."))
+        res.coverage["states"] += r["executions"]
+        res.coverage["transitions"] += r["steps"]
+        res.coverage["traces_validated_against_impl"] += r["executions"]
+        per.append({"scenario": name, "executions": r["executions"], "bound": r["bound_completed"], "outcomes": r["distinct_outcomes"], "cap": r["cap"]})
+    res.coverage["schedule_part"] = per
+    res.assumptions.append("schedule part: four two-session scenarios (flag changes against IDLE entry/exit of a slow reader, STORE | STORE, STORE | FETCH BODY[]) under every "
+                           "schedule with <=2 deviations: after its NOOP each session's last FLAGS value per message equals the final flags")
+    return res
 
 
 def replay(rec):
+    rp = rec["replay"]
+    if rp.get("driver") == "s":
+        from ..explore import sched
+
+        _p, _n, _sig, fails, _st = sched.run_one((rp["scenario"], rp["choices"]))
+        return [f for f in fails if f.rule.startswith("C04.")]
     from .hcommon import replay_h
 
     return replay_h("C04.", rec)
